@@ -112,6 +112,10 @@ def run_files(case):
     if case.get("titles"):
         for i, t in enumerate(tracks):
             t["title"] = TITLE_SETS[case["titles"]][i % len(TITLE_SETS[case["titles"]])]
+    if case.get("bloat"):
+        # long sheets: the legal maximum of 99 tracks, each with several ignorable lines
+        for i, t in enumerate(tracks):
+            t["extra"] = ['PERFORMER "Somebody with a rather long name %02d"' % i, "REM " + "x" * case["bloat"], "FLAGS DCP"]
     with scratch_dir("c03") as d:
         with open(os.path.join(d, "disc.bin"), "wb") as f:
             f.write(Q.bin_bytes(binlen))
@@ -174,7 +178,8 @@ class Check(CheckBase):
             "thorough) x per-track {one INDEX | INDEX 00+01} x {TITLE | none} under deviation bound 1 x bin length = last "
             "index*2352 + r for r in {0,1,2,3,4,5,2351,2352,2353,4704}, on a virtual position-coded bin through "
             "parse_cue_sheet/from_bin_cue/WAV builder; minute-carry positions 4499/4500/4501; (iii) a subset through real "
-            ".cue/.bin files and the full ls/export run, incl. 8 title families whose shape invites special treatment by naming "
+            ".cue/.bin files and the full ls/export run, incl. sheets of 50, 98 and 99 tracks with 0..700 bytes of ignorable lines per "
+            "track (sheets of 3 KB .. 80 KB), and 8 title families whose shape invites special treatment by naming "
             "code (equal, L/R-pair shaped, bare L/R, dotted, unsafe characters, case-only differences, '(2)'-numbered, with and without a '.wav' ending) judged "
             "by content only: one file per track, together exactly the track windows. non-trivial = >=2 tracks, or an MSF carry, or a ragged bin tail")
     assumptions = ["bin content is frame-position coded (LE32(k*2654435761)), so any foreign window is visible"]
@@ -212,6 +217,10 @@ class Check(CheckBase):
                                   "binlen": Q.SECTOR * positions[-1] + r})
         if self.quick:
             files = files[::3]
+        for n in (50, 98, 99):
+            for bloat in (0, 40, 200, 700):
+                files.append({"kind": "files", "positions": list(range(0, 2 * n, 2)), "opts": [["one", True]] * n,
+                              "binlen": Q.SECTOR * (2 * n) + 3, "bloat": bloat})
         for ts in sorted(TITLE_SETS):
             for positions in ([0, 2], [1, 75, 76], [0, 1, 2, 150]):
                 for r in (0, 3):
